@@ -598,6 +598,27 @@ theorem Rule_deterministic {bs : List Binding} {act : F → Bool} {buf : List KP
       rw [hnA _ h1' h2' _ this.1] at this; exact absurd this.2 (by simp)
     | drop _ _ _ => rfl
 
+/-- **CPR responses**: a cursor position report is handed, at once and outside the key buffer,
+    to the most specific, last registered active exact match for that single key (or to nobody);
+    `eager` and longer bindings play no role. -/
+theorem cpr_dispatch {I : Iface σ} {B : σ → List Binding} {G : σ → Prop} (hS : Sound I B G)
+    (ps : PS σ) (hG : G ps.w) (kp : KP) :
+    (∃ b, Chosen (B ps.w) (PA (I.evalF ps.w) (keysOf [kp])) b ∧
+      ((cprResponse I ps kp).2.1 = [.cpr (some b.hid) kp ps.prev] ∨
+       (cprResponse I ps kp).2.1 = [.cprRaise b.hid kp ps.prev])) ∨
+    ((∀ c ∈ B ps.w, PA (I.evalF ps.w) (keysOf [kp]) c = false) ∧
+      (cprResponse I ps kp).2.1 = [.cpr none kp ps.prev]) := by
+  have gl := getMatches_last hS ps.w hG [kp]
+  cases hm : (getMatches I ps.w [kp]).2.getLast? with
+  | none =>
+    rw [hm] at gl
+    exact Or.inr ⟨pickR_none.mp gl.symm, by simp [cprResponse, hm]⟩
+  | some b =>
+    rw [hm] at gl
+    refine Or.inl ⟨b, pickR_some gl.symm, ?_⟩
+    cases ho : (I.call (getMatches I ps.w [kp]).1 ps.queue b [kp] ps.prev).2.2 <;>
+      simp [cprResponse, hm, ho]
+
 /-! ### non-vacuity -/
 
 /-- the toy world has sound lookups over its flat binding list -/
@@ -620,5 +641,11 @@ example : (decideOf toyI { w := true, buffer := [.key 5 2] } false).2 matches .f
     wildcard is chosen although `Any` … is registered earlier, and `Chosen` is satisfiable -/
 example : Chosen toyBs (PA (fun f => f.eval fun _ => true) [3]) toyBs[3] :=
   ⟨toyBs.take 3, [], rfl, by decide, by simp, by decide⟩
+
+/-- a CPR response arriving between `a` and `b` does not break the sequence `a b` (nothing is
+    bound to it here, so it goes to nobody), and the log accounts for every key -/
+example : (processKeys toyI 10 { w := false, queue := [.key 2 1, .key 1 2, .key 3 3] }).2.1 =
+    [.pop (.key 2 1), .before, .after, .pop (.key 1 2), .cpr none (.key 1 2) [],
+     .pop (.key 3 3), .before, .call 1 [.key 2 1, .key 3 3] [], .after] := by decide
 
 end Ptk.C04
